@@ -197,7 +197,8 @@ func c12Ops() []string {
 				ops = append(ops, fmt.Sprintf("serve:m%d:r%d:%s", mi, ri, h))
 			}
 		}
-		ops = append(ops, fmt.Sprintf("scribble-input:m%d", mi), fmt.Sprintf("config-scribble:m%d", mi), fmt.Sprintf("reconfigure-scribble:m%d", mi), fmt.Sprintf("roundtrip-scribble:m%d", mi))
+		ops = append(ops, fmt.Sprintf("scribble-input:m%d", mi), fmt.Sprintf("config-scribble:m%d", mi), fmt.Sprintf("reconfigure-scribble:m%d", mi), fmt.Sprintf("roundtrip-scribble:m%d", mi),
+			fmt.Sprintf("edit-resubmit:m%d", mi))
 	}
 	return ops
 }
@@ -208,7 +209,7 @@ func c12ReducedOps(thorough bool) []string {
 	var ops []string
 	for mi := 0; mi < c12N; mi++ {
 		ops = append(ops, fmt.Sprintf("serve:m%d:r2:scribble", mi), fmt.Sprintf("serve:m%d:r1:scribble", mi),
-			fmt.Sprintf("scribble-input:m%d", mi), fmt.Sprintf("config-scribble:m%d", mi), fmt.Sprintf("reconfigure-scribble:m%d", mi))
+			fmt.Sprintf("scribble-input:m%d", mi), fmt.Sprintf("config-scribble:m%d", mi), fmt.Sprintf("reconfigure-scribble:m%d", mi), fmt.Sprintf("edit-resubmit:m%d", mi))
 		if thorough {
 			ops = append(ops, fmt.Sprintf("serve:m%d:r7:scribble-preset", mi), fmt.Sprintf("roundtrip-scribble:m%d", mi))
 		}
@@ -244,6 +245,54 @@ func (w *c12World) apply(op string) error {
 			return err
 		}
 		scribbleConfig(&c)
+	case "edit-resubmit":
+		// the caller keeps one Config value, edits one list after the other in place (one entry each) and resubmits
+		// it: every resubmission must take effect (compared with a fresh middleware for a copy of the edited value);
+		// at the end the original values are written back, again in place, and resubmitted
+		c := w.lits[mi].Config()
+		if err := w.m[mi].Reconfigure(&c); err != nil {
+			return err
+		}
+		type edit struct {
+			list []string
+			alt  string
+		}
+		edits := []edit{{c.Origins, "https://alt.example"}, {c.Methods, "ALT"}, {c.RequestHeaders, "X-Alt"}, {c.ResponseHeaders, "X-Alt-R"}}
+		var undo []func()
+		for _, e := range edits {
+			for i := len(e.list) - 1; i >= 0; i-- {
+				if e.list[i] == "*" {
+					continue
+				}
+				old, l, j := e.list[i], e.list, i
+				l[j] = e.alt
+				undo = append(undo, func() { l[j] = old })
+				break
+			}
+			if err := w.m[mi].Reconfigure(&c); err != nil {
+				return fmt.Errorf("edited configuration %+v rejected: %w", c, err)
+			}
+			clone := c
+			clone.Origins, clone.Methods = append([]string(nil), c.Origins...), append([]string(nil), c.Methods...)
+			clone.RequestHeaders, clone.ResponseHeaders = append([]string(nil), c.RequestHeaders...), append([]string(nil), c.ResponseHeaders...)
+			fresh, err := cors.NewMiddleware(clone)
+			if err != nil {
+				return fmt.Errorf("edited configuration %+v rejected by NewMiddleware: %w", clone, err)
+			}
+			fresh.SetDebug(mi == 1 || mi == 2)
+			probes := append(c12Probes(), vlib.Req{Method: "GET", Hdr: map[string][]string{"Origin": {"https://alt.example"}}},
+				vlib.Req{Method: "OPTIONS", Hdr: map[string][]string{"Origin": {"https://alt.example"}, "Access-Control-Request-Method": {"ALT"}, "Access-Control-Request-Headers": {"x-alt"}}})
+			a, b := observe(w.m[mi], probes), observe(fresh, probes)
+			if j := firstDiff(a, b); j >= 0 {
+				return fmt.Errorf("after editing the submitted Config in place to %+v and resubmitting it, %s is answered with %s; a fresh middleware for the same value answers %s", c, probes[j], a[j], b[j])
+			}
+		}
+		for _, u := range undo {
+			u()
+		}
+		if err := w.m[mi].Reconfigure(&c); err != nil {
+			return err
+		}
 	case "roundtrip-scribble":
 		c := w.m[mi].Config()
 		if err := w.m[mi].Reconfigure(c); err != nil {
